@@ -95,7 +95,8 @@ theorem runPure_rel2 (p : Prog) (R : Ctx → Bool → Ctx → Prop)
     (herr : ∀ c e, c.exitLevel = xlNone → e ≠ .enoerr → R c false (c.setErr e))
     (hsimple : ∀ c a b c', c.exitLevel = xlNone → stepSimple c a = (b, c') → R c b c')
     (hcall : ∀ c f args nl ok c3 dst, c.exitLevel = xlNone → args.length ≤ f.nargs →
-        R (pushNils (enterCall c f args) nl) ok c3 → R c (afterCall c3 ok nl dst).1 (afterCall c3 ok nl dst).2)
+        R (pushNils (enterCall c f args) nl) ok c3 →
+        R c (afterCall c3 ok nl dst f.spec args).1 (afterCall c3 ok nl dst f.spec args).2)
     (avail : Nat) (c : Ctx) (body : List Action) : R c (runPure p avail c body).1 (runPure p avail c body).2 := by
   fun_induction runPure p avail c body with
   | case1 avail c => exact hrefl c
@@ -129,10 +130,12 @@ theorem runPure_rel2 (p : Prog) (R : Ctx → Bool → Ctx → Prop)
     exact htrans _ _ _ _ (hsimple c a true c1 (by simpa using hx) hs) ih
   | case11 avail c rest hx a hna c1 hs => exact hsimple c a false c1 (by simpa using hx) hs
 
-/-- how a body can end: completed; failed with a real error (exit level still NONE); or unwound by
-    `exit` (error number cleared, exit level latched) -/
-def EndState (ok : Bool) (c' : Ctx) : Prop :=
-  ok = false → (c'.err ≠ .enoerr ∧ c'.exitLevel = xlNone) ∨ (c'.err = .enoerr ∧ xlGlobal ≤ c'.exitLevel)
+/-- how a body can end, relative to where it started.  Completed: the exit level is what it was, or
+    NONE, or was set by `return` / `exit`.  Failed: with a real error and the exit level at NONE, or
+    unwound by `exit` (error number cleared, exit level latched). -/
+def EndState (c : Ctx) (ok : Bool) (c' : Ctx) : Prop :=
+  (ok = true → c'.exitLevel = c.exitLevel ∨ c'.exitLevel = xlNone ∨ c'.exitLevel = xlFunction ∨ c'.exitLevel = xlGlobal) ∧
+  (ok = false → (c'.err ≠ .enoerr ∧ c'.exitLevel = xlNone) ∨ (c'.err = .enoerr ∧ xlGlobal ≤ c'.exitLevel))
 
 theorem stepSimple_fail {c : Ctx} {a : Action} {c' : Ctx} (h : stepSimple c a = (false, c')) :
     c' = c.setErr .edivby0 := by
@@ -149,46 +152,204 @@ theorem stepSimple_fail {c : Ctx} {a : Action} {c' : Ctx} (h : stepSimple c a = 
     · split at h <;> simp at h
   | _ => simp [stepSimple] at h
 
+@[simp] theorem ee_assignGbl (c : Ctx) (i : Nat) (v : Val) : (c.assignGbl i v).ee = c.ee := by
+  unfold Ctx.assignGbl; split <;> simp
+@[simp] theorem ee_replaceOwned (c : Ctx) (i : Nat) (v : Val) : (c.replaceOwned i v).ee = c.ee := by
+  unfold Ctx.replaceOwned; split <;> simp
+@[simp] theorem ee_doAssign (c : Ctx) (i : Nat) (e : Expr) (g : Bool) : (doAssign c i e g).ee = c.ee := by
+  unfold doAssign; cases g <;> simp
+
+/-- a statement leaves the exit level alone or sets it to FUNCTION (`return`) or GLOBAL (`exit`) -/
+theorem stepSimple_xl (c : Ctx) (a : Action) :
+    (stepSimple c a).2.exitLevel = c.exitLevel ∨ (stepSimple c a).2.exitLevel = xlFunction ∨
+    (stepSimple c a).2.exitLevel = xlGlobal := by
+  cases a with
+  | setg n e => left; exact xl_of_ee (by simp [stepSimple])
+  | setl n e => left; exact xl_of_ee (by simp [stepSimple])
+  | seta n e => left; exact xl_of_ee (by simp [stepSimple])
+  | print e => left; simp only [stepSimple]; exact xl_of_ee (ee_evalOwned c e)
+  | printf k e =>
+    left; simp only [stepSimple]
+    split <;> exact xl_of_ee (ee_evalOwned c e)
+  | closef k => left; simp only [stepSimple]; split <;> rfl
+  | getline => left; simp only [stepSimple]; split <;> rfl
+  | fail => left; rfl
+  | exit e => right; right; cases e <;> rfl
+  | ret e => right; left; cases e <;> rfl
+  | call d s a => left; rfl
+  | mapset n key e =>
+    left; simp only [stepSimple]
+    split
+    · rfl
+    · split
+      · exact xl_of_ee (c := c) (by simp)
+      · rfl
+
+theorem xl_setRec0 (c : Ctx) (t : String) : (setRec0 c t).exitLevel = c.exitLevel := by
+  unfold setRec0; simp only; split <;> rfl
+
+/-- copying back never touches the exit level; a rejected copy leaves ENONSCATOPOS and can only
+    happen below exit level GLOBAL -/
+theorem copyBackOne_xl (c : Ctx) (e : Expr) (av : Val) :
+    (copyBackOne c e av).2.exitLevel = c.exitLevel ∧
+    ((copyBackOne c e av).1 = false → (copyBackOne c e av).2.err = .enonscatopos ∧ c.exitLevel < xlGlobal) := by
+  unfold copyBackOne
+  cases e with
+  | glob g => exact ⟨xl_of_ee (by simp), by simp⟩
+  | arg j => exact ⟨xl_of_ee (by simp), by simp⟩
+  | loc j => exact ⟨xl_of_ee (by simp), by simp⟩
+  | rec0 =>
+    simp only
+    split
+    · exact ⟨rfl, by simp⟩
+    · next hx =>
+      split
+      · exact ⟨rfl, fun _ => ⟨rfl, by omega⟩⟩
+      · exact ⟨xl_setRec0 c _, by simp⟩
+  | nr => exact ⟨rfl, by simp⟩
+  | lit s => exact ⟨rfl, by simp⟩
+  | app e s => exact ⟨rfl, by simp⟩
+  | cat a b => exact ⟨rfl, by simp⟩
+  | mlen n => exact ⟨rfl, by simp⟩
+
+theorem copyBack_xl (c : Ctx) (bs : List Bool) (es : List Expr) (i : Nat) :
+    (copyBack c bs es i).2.exitLevel = c.exitLevel ∧
+    ((copyBack c bs es i).1 = false → (copyBack c bs es i).2.err = .enonscatopos ∧ c.exitLevel < xlGlobal) := by
+  induction bs generalizing c es i with
+  | nil => simp [copyBack]
+  | cons b bs ih =>
+    cases es with
+    | nil => simp [copyBack]
+    | cons e es =>
+      simp only [copyBack]
+      split
+      · have h1 := copyBackOne_xl c e (c.slot (c.argIdx i))
+        generalize copyBackOne c e (c.slot (c.argIdx i)) = r at h1
+        obtain ⟨b1, c1⟩ := r
+        cases b1
+        · exact ⟨h1.1, fun _ => h1.2 rfl⟩
+        · simp only at h1 ⊢
+          have h2 := ih c1 es (i + 1)
+          exact ⟨h2.1.trans h1.1, fun hf => by have := h2.2 hf; rw [h1.1] at this; exact this⟩
+      · exact ih _ _ _
+
 theorem runPure_endState (p : Prog) (avail : Nat) (c : Ctx) (body : List Action) :
-    EndState (runPure p avail c body).1 (runPure p avail c body).2 := by
-  apply runPure_rel2 p (fun _ ok c' => EndState ok c')
-  · intro c h; cases h
-  · intro a b ok c _ h; exact h
-  · intro c e hx he _
-    left; exact ⟨he, hx⟩
-  · intro c a b c' hx h hb
-    subst hb
-    have := stepSimple_fail h
-    subst this
-    left; exact ⟨by simp [Ctx.setErr], hx⟩
-  · intro c f args nl ok c3 dst hx hle hin hf
-    unfold afterCall at hf ⊢
-    have hl := leaveFrame_ee (popVals c3 nl) ok false
-    generalize leaveFrame (popVals c3 nl) ok false = r at hl hf
-    obtain ⟨c4, r, cap⟩ := r
-    simp only at hl hf ⊢
+    EndState c (runPure p avail c body).1 (runPure p avail c body).2 := by
+  apply runPure_rel2 p EndState
+  · intro c; exact ⟨fun _ => Or.inl rfl, (fun h => by cases h)⟩
+  · intro a b ok c h1 h2
+    refine ⟨fun hok => ?_, h2.2⟩
+    have e1 := h1.1 rfl
+    have e2 := h2.1 hok
+    rcases e2 with e2 | e2 | e2 | e2
+    · rw [e2]; exact e1
+    · exact Or.inr (Or.inl e2)
+    · exact Or.inr (Or.inr (Or.inl e2))
+    · exact Or.inr (Or.inr (Or.inr e2))
+  · intro c e hx he
+    exact ⟨(fun h => by cases h), fun _ => Or.inl ⟨he, hx⟩⟩
+  · intro c a b c' hx h
+    refine ⟨fun hb => ?_, fun hb => ?_⟩
+    · have := stepSimple_xl c a
+      rw [h] at this
+      rcases this with e | e | e
+      · exact Or.inl e
+      · exact Or.inr (Or.inr (Or.inl e))
+      · exact Or.inr (Or.inr (Or.inr e))
+    · subst hb
+      have := stepSimple_fail h
+      subst this
+      left; exact ⟨by simp [Ctx.setErr], hx⟩
+  · intro c f args nl ok c3 dst hx hle hin
+    have hx2 : (pushNils (enterCall c f args) nl).exitLevel = xlNone := by
+      rw [xl_of_ee (c := c) (by simp)]; exact hx
     have he3 : (popVals c3 nl).err = c3.err := err_of_ee (by simp)
     have hx3 : (popVals c3 nl).exitLevel = c3.exitLevel := xl_of_ee (by simp)
-    rw [he3, hx3] at hl
+    -- the state handed to leaveFrame
+    have hcb : ∀ ok1 c3a, (if ok = true then copyBack (popVals c3 nl) f.spec args 0 else (false, popVals c3 nl)) = (ok1, c3a) →
+        c3a.exitLevel = c3.exitLevel ∧
+        (ok1 = true → ok = true) ∧
+        (ok1 = false → ok = true → c3a.err = .enonscatopos ∧ c3.exitLevel < xlGlobal) ∧
+        (ok = false → c3a.err = c3.err) := by
+      intro ok1 c3a heq
+      cases ok with
+      | false =>
+        simp at heq
+        obtain ⟨rfl, rfl⟩ := heq
+        exact ⟨hx3, by simp, by simp, fun _ => he3⟩
+      | true =>
+        simp only [↓reduceIte] at heq
+        have := copyBack_xl (popVals c3 nl) f.spec args 0
+        rw [heq] at this
+        simp only at this
+        refine ⟨this.1.trans hx3, fun _ => rfl, fun h1 _ => ?_, by simp⟩
+        have h2 := this.2 h1
+        rw [hx3] at h2
+        exact h2
+    unfold afterCall
+    generalize (if ok = true then copyBack (popVals c3 nl) f.spec args 0 else (false, popVals c3 nl)) = rb at hcb
+    obtain ⟨ok1, c3a⟩ := rb
+    obtain ⟨hxa, hok1, hfail, hsame⟩ := hcb ok1 c3a rfl
+    simp only
+    have hl := leaveFrame_ee c3a ok1 false
+    generalize leaveFrame c3a ok1 false = r at hl
+    obtain ⟨c4, r, cap⟩ := r
+    simp only at hl ⊢
+    rw [hxa] at hl
     cases r with
     | none =>
       simp only
-      have hok : ok = false := by
+      have hok1f : ok1 = false := by
         have := hl.2.2.1; simp at this; exact this
-      rcases hin hok with ⟨h1, h2⟩ | ⟨h1, h2⟩
-      · left; rw [hl.1, hl.2.1, h2]; exact ⟨h1, by simp [xlNone, xlFunction]⟩
-      · right; rw [hl.1, hl.2.1]
-        refine ⟨h1, ?_⟩
-        have : ¬ c3.exitLevel = xlFunction := by simp [xlGlobal, xlFunction] at h2 ⊢; omega
-        simp [this]; exact h2
+      refine ⟨(fun h => by cases h), fun _ => ?_⟩
+      cases hok : ok with
+      | true =>
+        -- the body completed but a copy-back was rejected
+        have hf := hfail hok1f hok
+        have hi := hin.1 hok
+        rw [hx2] at hi
+        left
+        rw [hl.1, hl.2.1]
+        refine ⟨by rw [hf.1]; decide, ?_⟩
+        rcases hi with e | e | e | e
+        · rw [e]; simp [xlNone, xlFunction]
+        · rw [e]; simp [xlNone, xlFunction]
+        · rw [e]; simp
+        · rw [e] at hf; simp [xlGlobal] at hf
+      | false =>
+        have hi := hin.2 hok
+        have hes := hsame hok
+        rcases hi with ⟨h1, h2⟩ | ⟨h1, h2⟩
+        · left; rw [hl.1, hl.2.1, hes, h2]; exact ⟨h1, by simp [xlNone, xlFunction]⟩
+        · right; rw [hl.1, hl.2.1, hes]
+          refine ⟨h1, ?_⟩
+          have : ¬ c3.exitLevel = xlFunction := by simp [xlGlobal, xlFunction] at h2 ⊢; omega
+          simp [this]; exact h2
     | some v =>
-      simp only at hf ⊢
+      simp only
+      have hok1t : ok1 = true := by
+        have := hl.2.2.1; simp at this; exact this
+      have hok := hok1 hok1t
+      have hi := hin.1 hok
+      rw [hx2] at hi
       split
-      · next hg => right; exact ⟨rfl, hg⟩
-      · next hg => simp [hg] at hf
+      · next hg => exact ⟨(fun h => by cases h), fun _ => Or.inr ⟨rfl, hg⟩⟩
+      · next hg =>
+        refine ⟨fun _ => ?_, (fun h => by cases h)⟩
+        left
+        have e4 : ((c4.assign (c4.lclIdx dst) v).refdown v).exitLevel = c4.exitLevel := xl_of_ee (by simp)
+        rw [e4, hl.2.1, hx]
+        rcases hi with e | e | e | e
+        · rw [e]; simp [xlNone, xlFunction]
+        · rw [e]; simp [xlNone, xlFunction]
+        · rw [e]; simp
+        · rw [hl.2.1, e] at hg; simp [xlGlobal, xlFunction] at hg
 
 theorem runBlock_endState (p : Prog) (c : Ctx) (k : Cache) (nl : Nat) (body : List Action) (hk : Consistent p k)
-    (hx : c.exitLevel = xlNone) : EndState (runBlock p c k nl body).1 (runBlock p c k nl body).2.1 := by
+    (hx : c.exitLevel = xlNone) :
+    (runBlock p c k nl body).1 = false →
+      ((runBlock p c k nl body).2.1.err ≠ .enoerr ∧ (runBlock p c k nl body).2.1.exitLevel = xlNone) ∨
+      ((runBlock p c k nl body).2.1.err = .enoerr ∧ xlGlobal ≤ (runBlock p c k nl body).2.1.exitLevel) := by
   unfold runBlock
   split
   · intro _; left; exact ⟨by simp [Ctx.setErr], hx⟩
@@ -197,7 +358,7 @@ theorem runBlock_endState (p : Prog) (c : Ctx) (k : Cache) (nl : Nat) (body : Li
     have h2 := runPure_endState p (c.avail - nl) (pushNils c nl) body
     rw [← h1] at h2
     intro hf
-    have := h2 hf
+    have := h2.2 hf
     rw [err_of_ee (ee_popVals _ nl), xl_of_ee (ee_popVals _ nl)]
     exact this
 
